@@ -961,3 +961,19 @@ PROPS["C11"]["harnesses"] = PROPS["C11"]["harnesses"] + [
     H("c10_spec::spec_fill2_free4", instance="':' + e-acute + 4 free bytes + '}' (a multi-byte character right after the ':')", symbolic="4 bytes", bound="unwind 10", **_s),
 ]
 PROPS["C11"]["bounds"] += "; Parser::parameters on every spec text of 5 free bytes over the spec alphabet, also behind a 2-byte character"
+
+# C08 at the appender level: a rotation that fails after LogFile::roll() leaves the file in place; the appender must keep
+# every acknowledged record when it re-opens the file (the defect fixed in 60c1b22).  The failure is not REPORTED by the
+# harness policy (that would construct an anyhow error, which does not fit); for the appender the state is the same.
+PROPS["C08"]["functions"] = list(PROPS["C08"]["functions"]) + ["RollingFileAppender::{append,get_writer}, LogFile::roll after a rotation that left the active file in place"]
+PROPS["C08"]["bounds"] += ("; appender level: post-processing policy, appends of instance-given lengths (2,1 and 1,2,1 bytes) over 1 or 0 pre-existing bytes, the first roll fails after "
+                           "LogFile::roll() (file left in place), the last roll decision and the open mode (append / truncate) symbolic")
+PROPS["C08"]["harnesses"] = PROPS["C08"]["harnesses"] + [
+    H("c05_rolling::failed_roll_2x1", instance="append 2 bytes, roll fails leaving the file; append 1 byte", symbolic="open mode, the last roll decision", bound="unwind 10", **_a),
+    H("c05_rolling::failed_roll_2x1_witness", kind="witness", **_a),
+    H("c05_rolling::failed_roll_1x2x1", tier="thorough", instance="append 1 byte, roll fails leaving the file; append 2 bytes (kept); append 1 byte", symbolic="open mode, the last roll decision", bound="unwind 10", **_a),
+]
+PROPS["C08"]["assumptions"] = list(PROPS["C08"]["assumptions"]) + _fs_assumptions
+PROPS["C08"]["outside"] = ("at the appender level: that the failing append RETURNS an error (the harness policy leaves the file in place without reporting it: constructing "
+                           "the anyhow error exhausts 14 GB, DESIGN.md 9.8), a restarted appender, pre-processing policies; at the roller level: counts above 3, base > 0, the "
+                           "copy+remove fallback failing half way, compression, the background thread")
